@@ -227,6 +227,65 @@ example :
     (dispatchModuleE false true 2 m >>= dispatchModuleE false true 2).toBool = true ∧
     ((dispatchModuleE false true 2 m >>= dispatchModuleE false true 2).toOption.map List.length) = some 2 := by decide
 
+/-! ### the conditions of the inserted guards are defined in the entry block -/
+
+/-- Every guard the pass puts around a leaf tests a condition that the prelude — the ops inserted at the
+start of the ENTRY block, which dominates every block — defines: `cmp c ∈ pre` for every core `c` in
+`guardsFor`; and the prelude defines it properly (the call first, the constant before the compare). This
+is the model-level form of "no guard reads an undefined condition" in functions with several blocks. -/
+theorem guard_conditions_defined (r : Bool) (f : Func) (nb : Nat) (bb : BB) (hbb : bb ∈ f.blocks)
+    (l : Leaf) (g : List Nat) (hl : (l, g) ∈ labB [] bb.body) (c : Nat) (hc : c ∈ guardsFor r nb l) :
+    Pre.cmp c ∈ (dispatch r true nb f).pre ∧ Pre.const c ∈ (dispatch r true nb f).pre ∧
+      (dispatch r true nb f).pre.head? = some (Pre.call (List.range nb)) := by
+  have hdm : dmOf l = true → changedBlocks dmOf f.blocks = true := by
+    intro h
+    simp only [changedBlocks, List.any_eq_true]
+    exact ⟨bb, hbb, mem_labB_any dmOf l h dmOf_regEv bb.body [] g hl⟩
+  have hcp : cpOf r l = true → changedBlocks (cpOf r) (phaseBlocks true dmOf (nb - 1) f.blocks) = true := by
+    intro h
+    obtain ⟨g', hg'⟩ := mem_lab_goB dmOf (nb - 1) dmOf_regEv bb.body l g hl
+    simp only [changedBlocks, List.any_eq_true, phaseBlocks_map, List.mem_map]
+    exact ⟨⟨goB dmOf (nb - 1) bb.body [], bb.term⟩, ⟨bb, hbb, rfl⟩,
+      mem_labB_any (cpOf r) l h (cpOf_regEv r) _ [] g' hg'⟩
+  simp only [guardsFor, List.mem_append] at hc
+  simp only [dispatch]
+  rcases hc with hc | hc
+  · cases hd : dmOf l
+    · simp [hd] at hc
+    · simp only [hd, if_true, List.mem_singleton] at hc
+      subst hc
+      rw [hdm hd]
+      cases changedBlocks (cpOf r) _ <;> simp [prelude]
+  · cases hd : cpOf r l
+    · simp [hd] at hc
+    · simp only [hd, if_true, List.mem_singleton] at hc
+      subst hc
+      rw [hcp hd]
+      cases changedBlocks dmOf f.blocks <;> simp [prelude]
+
+/-! ### results of dispatched ops -/
+
+/-- Necessary for a value produced by leaf `d` to be usable by a leaf `u` at the same nesting after the
+pass: the guards put around `d` (by `C14_guards`: exactly `guardsFor d`) also enclose `u`. Full
+statement: this holds for every producer / user pair. -/
+def result_scope_statement (r : Bool) : Prop :=
+  ∀ (nb : Nat) (d u : Leaf), guardsFor r nb d <+: guardsFor r nb u
+
+/-- clause excluding finding DC14c: the producer is not dispatched (true of every dispatchable op after
+bufferisation: they have no results) -/
+def ProducerNotDispatched (r : Bool) (d : Leaf) : Prop := dmOf d = false ∧ cpOf r d = false
+
+theorem result_scope_partial (r : Bool) (nb : Nat) (d u : Leaf) (h : ProducerNotDispatched r d) :
+    guardsFor r nb d <+: guardsFor r nb u := by
+  simp [guardsFor, h.1, h.2]
+
+/-- DC14c: the result of a `linalg.generic` (guarded by core 0) used by an op that runs everywhere. -/
+theorem result_scope_fails (r : Bool) : ¬ result_scope_statement r := by
+  intro h
+  have := h 2 ⟨1, .generic, true⟩ ⟨2, .other, false⟩
+  revert this
+  cases r <;> decide
+
 /-- with at least two cores the data-mover core and the compute core are different cores -/
 theorem dm_core_ne_compute_core (nb : Nat) (h : 2 ≤ nb) : nb - 1 ≠ 0 := by omega
 
